@@ -195,6 +195,14 @@ def base_worlds(tier, seed):
     extra = e2e.worlds.as_map(17, pool[1][1])
     ws.append(dict(refs=[refs[1], refs[0], refs[2]], queries=[sl['queries'][0], sl['queries'][1], extra, sl['queries'][2]],
                    desc=sl['desc'] + ['plain']))
+    # a molecule aligned in THREE pieces (two first-pass segments around a 5 kb insertion + a second-pass piece behind a 60 kb
+    # deletion) whose joined record scores lower than its first-pass record, next to plain molecules with smaller and larger ids
+    w = e2e.worlds.window_query(refs[0], 6, 48, False)[0][2]
+    q3 = e2e.worlds.apply_edit(list(w[:28]), ('indel', 13, 5000.0))
+    q3 = e2e.worlds.apply_edit(q3, ('chimera', list(w[31:41]), max(3000.0, round(w[31] - w[27] - 60000.0, 1))))
+    ws.append(dict(refs=[refs[1], refs[0], refs[2]],
+                   queries=[e2e.worlds.as_map(4, pool[3][1]), e2e.worlds.as_map(9, q3), e2e.worlds.as_map(17, pool[1][1]), e2e.worlds.as_map(30, [100.0, 20000.0])],
+                   desc=['plain', 'three-piece molecule', 'plain', 'unalignable']))
     return ws
 
 
